@@ -343,7 +343,7 @@ fn gen_prev_theta(r: &mut Rng, j: usize) -> f64 {
 
 /// Snell: set external angle, read it back; forward law as K.  `prev` = the beam's history before the
 /// call: (previous internal polar angle, previous azimuth, previous wavelength); `None` = fresh beam.
-fn snell_case(ctx: &mut Ctx, c: &CrystalType, cs: &CrystalSetup, ctheta: f64, cphi: f64, t_c: f64, lam: f64, pol: PolarizationType, bphi: f64, ext_deg: f64, prev: Option<(f64, f64, f64)>) {
+fn snell_case(ctx: &mut Ctx, c: &str, cs: &CrystalSetup, ctheta: f64, cphi: f64, t_c: f64, lam: f64, pol: PolarizationType, bphi: f64, ext_deg: f64, prev: Option<(f64, f64, f64)>) {
   let ext = ext_deg * DEG;
   let (mut beam, hist) = match prev {
     None => (Beam::new(pol, bphi * RAD, 0.0 * RAD, lam * M, 100e-6 * M), "fresh".to_string()),
@@ -362,7 +362,7 @@ fn snell_case(ctx: &mut Ctx, c: &CrystalType, cs: &CrystalSetup, ctheta: f64, cp
     "crystal={} ctheta={:e} cphi={:e} T={} lambda={:e} pol={} bphi={:e} ext_deg={:e} prev_theta_deg={:e} history={}",
     c, ctheta, cphi, t_c, lam, pol_tok(pol), bphi, ext_deg, *(beam.theta_internal() / RAD) / DEG, hist
   );
-  ctx.count(&format!("snell/crystal={}", c));
+  ctx.count(&format!("snell/crystal={}", c.split('{').next().unwrap_or(c)));
   ctx.count(&format!("snell/history={}", if prev.is_some() { "prefixed" } else { "fresh" }));
   // K: the internal-from-external search itself (cost closure + bounded 1-D Nelder–Mead), on this very beam
   snell_int_case(ctx, &beam, cs, &n, ctheta, cphi, pol, ext);
@@ -393,6 +393,46 @@ fn snell_int_case(ctx: &mut Ctx, beam: &Beam, cs: &CrystalSetup, n: &Vector3<f64
     ),
     &ti.map(fl).unwrap_or_else(|| "PANIC".into()),
   );
+}
+
+/// the statement on a finished setup: position = −L/(2n), n = index along z at the BEAM's own λ and
+/// polarisation (whatever `pm_type` says), for both beams; plus the `waist_pos` correspondence line
+fn waist_check(ctx: &mut Ctx, spdc: &SPDC, route: &str, det: &str) {
+  let zdir = nalgebra::Unit::new_normalize(Vector3::z());
+  let cs = &spdc.crystal_setup;
+  let len = *(cs.length / M);
+  for (who, beam, z) in [
+    ("signal", spdc.signal.clone().as_beam(), *(spdc.signal_waist_position / M)),
+    ("idler", spdc.idler.clone().as_beam(), *(spdc.idler_waist_position / M)),
+  ] {
+    // quantifier domain: wavelengths inside the crystal's window (an optimum idler derived from a re-tuned signal may leave it)
+    let (lo, hi) = super::index::window(&cs.crystal);
+    let bl = *(beam.vacuum_wavelength() / M);
+    if !(bl >= lo && bl <= hi) {
+      ctx.count(&format!("waist/outside-window={}", who));
+      continue;
+    }
+    let nz = *cs.index_along(beam.vacuum_wavelength(), zdir, beam.polarization());
+    let expect = -len / (2.0 * nz);
+    ctx.s(
+      "C13.waist_position",
+      (z - expect).abs() <= 4.0 * f64::EPSILON * expect.abs(),
+      &format!("waist-position/{}", who),
+      &format!(
+        "{} route={} beam={} beam_lambda={:e} beam_pol={} pm_type_now={} L={:e} z={:e} expect={:e} n_z={}",
+        det, route, who, *(beam.vacuum_wavelength() / M), pol_tok(beam.polarization()), cs.pm_type, len, z, expect, nz
+      ),
+    );
+    // K: the model's −L/(2 n_z) from the principal indices at the beam's own wavelength and the beam's own polarisation
+    let n = *cs.crystal.get_indices(beam.vacuum_wavelength(), cs.temperature);
+    if n.x.is_finite() && n.y.is_finite() && n.z.is_finite() {
+      ctx.k(
+        "waist_pos",
+        &format!("{} {} {} {} {} {} {}", fl(n.x), fl(n.y), fl(n.z), fl(*(cs.theta / RAD)), fl(*(cs.phi / RAD)), fl(len), pol_tok(beam.polarization())),
+        &fl(z),
+      );
+    }
+  }
 }
 
 fn conv_case(ctx: &mut Ctx) {
@@ -526,11 +566,11 @@ pub fn run(ctx: &mut Ctx) {
           };
           let lam = gen_lambda(&mut ctx.rng, c);
           if j < 4 {
-            snell_case(ctx, c, &cs, ctheta, cphi, t_c, lam, *pol, bphi, ext_deg, None);
+            snell_case(ctx, &c.to_string(), &cs, ctheta, cphi, t_c, lam, *pol, bphi, ext_deg, None);
           }
           // the same request on a beam with a history (previous polar angle anywhere in (−π, π])
           let prev = (gen_prev_theta(&mut ctx.rng, j + 5 * o), ctx.rng.range(0.0, TAU), gen_lambda(&mut ctx.rng, c));
-          snell_case(ctx, c, &cs, ctheta, cphi, t_c, lam, *pol, bphi, ext_deg, Some(prev));
+          snell_case(ctx, &c.to_string(), &cs, ctheta, cphi, t_c, lam, *pol, bphi, ext_deg, Some(prev));
         }
       }
       // the search outside the statement's domain (negative, −0, beyond 90°): correspondence only
@@ -688,24 +728,7 @@ pub fn run(ctx: &mut Ctx) {
   // ---------------------------------------------------------------- automatic waist positions: both beams, every route
   {
     let pm_types = [PMType::Type0_o_oo, PMType::Type0_e_ee, PMType::Type1_e_oo, PMType::Type2_e_eo, PMType::Type2_e_oe];
-    let zdir = || nalgebra::Unit::new_normalize(Vector3::z());
-    // the statement on a finished setup: position = −L/(2n), n = index along z at the beam's own λ and polarisation
-    let check = |ctx: &mut Ctx, spdc: &SPDC, route: &str, det: &str| {
-      let len = *(spdc.crystal_setup.length / M);
-      for (who, beam, z) in [
-        ("signal", spdc.signal.clone().as_beam(), *(spdc.signal_waist_position / M)),
-        ("idler", spdc.idler.clone().as_beam(), *(spdc.idler_waist_position / M)),
-      ] {
-        let nz = *spdc.crystal_setup.index_along(beam.vacuum_wavelength(), zdir(), beam.polarization());
-        let expect = -len / (2.0 * nz);
-        ctx.s(
-          "C13.waist_position",
-          (z - expect).abs() <= 4.0 * f64::EPSILON * expect.abs(),
-          &format!("waist-position/{}", who),
-          &format!("{} route={} beam={} beam_lambda={:e} beam_pol={} L={:e} z={:e} expect={:e} n_z={}", det, route, who, *(beam.vacuum_wavelength() / M), pol_tok(beam.polarization()), len, z, expect, nz),
-        );
-      }
-    };
+    let check = waist_check;
     for c in CRYSTALS.iter() {
       for (pi, pm) in pm_types.iter().enumerate() {
         for j in 0..(if ctx.thorough { 6 } else { 1 }) {
@@ -777,6 +800,276 @@ pub fn run(ctx: &mut Ctx) {
     }
   }
 
+  // ---------------------------------------------------------------- automatic waist positions on SPDC objects whose
+  // pieces of state were set INDEPENDENTLY of each other (beam polarisations vs pm_type, wavelengths, crystal fields …)
+  {
+    let pm_types = [PMType::Type0_o_oo, PMType::Type0_e_ee, PMType::Type1_e_oo, PMType::Type2_e_eo, PMType::Type2_e_oe];
+    let flip = |p: PolarizationType| if p == PolarizationType::Ordinary { PolarizationType::Extraordinary } else { PolarizationType::Ordinary };
+    const N_MUT: usize = 18;
+    for (cidx, c) in CRYSTALS.iter().enumerate() {
+      for j in 0..(if ctx.thorough { 10 } else { 2 }) {
+        // quick tier: one type-2 and one other PM type per crystal
+        let pm = if j == 0 { pm_types[3 + cidx % 2] } else { *ctx.rng.pick(&pm_types) };
+        let (lo, hi) = super::index::window(c);
+        let lp = ctx.rng.range(lo.max(hi / 6.0), hi / 2.45);
+        let r = ctx.rng.range(1.7, 1.95);
+        let (ls, li) = (lp * r, lp * r / (r - 1.0));
+        let ctheta_deg = ctx.rng.range(5.0, 90.0);
+        let cphi_deg = *ctx.rng.pick(&[0.0, 90.0, 37.0]);
+        let t_c = gen_temp(&mut ctx.rng);
+        let len_um = ctx.rng.log_range(100.0, 50_000.0);
+        let det = format!(
+          "crystal={} pm_type={} ctheta_deg={:e} cphi_deg={} T={} L_um={:e} lambda_p={:e} lambda_s={:e} lambda_i={:e}",
+          c, pm, ctheta_deg, cphi_deg, t_c, len_um, lp, ls, li
+        );
+        let cfg = SPDCConfig {
+          crystal: CrystalConfig {
+            kind: c.clone(),
+            pm_type: pm,
+            phi_deg: cphi_deg,
+            theta_deg: AutoCalcParam::Param(ctheta_deg),
+            length_um: len_um,
+            temperature_c: t_c,
+            counter_propagation: false,
+          },
+          pump: PumpConfig { wavelength_nm: lp * 1e9, waist_um: 100.0, bandwidth_nm: 5.0, average_power_mw: 1.0, spectrum_threshold: None },
+          signal: SignalConfig { wavelength_nm: ls * 1e9, phi_deg: 0.0, theta_deg: Some(if j % 2 == 0 { 0.0 } else { 1.5 }), theta_external_deg: None, waist_um: 100.0, waist_position_um: AutoCalcParam::Param(123.0) },
+          idler: AutoCalcParam::Param(IdlerConfig { wavelength_nm: li * 1e9, phi_deg: 180.0, theta_deg: Some(if j % 2 == 0 { 0.0 } else { 1.2 }), theta_external_deg: None, waist_um: 80.0, waist_position_um: AutoCalcParam::Param(45.0) }),
+          ..SPDCConfig::default()
+        };
+        let spdc0 = match guard(|| cfg.try_as_spdc().ok()).flatten() {
+          Some(s) => s,
+          None => {
+            ctx.count("waist/state/base-unavailable");
+            continue;
+          }
+        };
+        for m in 0..N_MUT {
+          // random draws first (outside the guard), so that the stream does not depend on the code under test
+          let pm2 = {
+            let k = ctx.rng.below(4) as usize;
+            *pm_types.iter().filter(|p| **p != pm).nth(k).unwrap_or(&pm_types[0])
+          };
+          let (ps, pi_) = (gen_pol(&mut ctx.rng), gen_pol(&mut ctx.rng));
+          let lam2 = ctx.rng.range(lo.max(hi / 6.0), hi * 0.95);
+          let len2 = ctx.rng.log_range(1e-5, 1e-1);
+          let ang2 = (gen_crystal_angle(&mut ctx.rng), gen_crystal_angle(&mut ctx.rng));
+          let t2 = gen_temp(&mut ctx.rng);
+          let c2 = ctx.rng.pick(&CRYSTALS).clone();
+          let c2_ok = {
+            let (l2, h2) = super::index::window(&c2);
+            [lp, ls, li].iter().all(|l| *l >= l2 && *l <= h2)
+          };
+          let mut mdesc = String::new();
+          let mutated: Option<SPDC> = guard(|| {
+            let mut s = spdc0.clone();
+            match m {
+              0 => {
+                let p = flip(s.signal.polarization());
+                s.signal.set_polarization(p);
+                mdesc = format!("signal.set_polarization({})", pol_tok(p));
+              }
+              1 => {
+                let p = flip(s.idler.polarization());
+                s.idler.set_polarization(p);
+                mdesc = format!("idler.set_polarization({})", pol_tok(p));
+              }
+              2 => {
+                let (p, q) = (flip(s.signal.polarization()), flip(s.idler.polarization()));
+                s.signal.set_polarization(p);
+                s.idler.set_polarization(q);
+                mdesc = format!("signal.set_polarization({});idler.set_polarization({})", pol_tok(p), pol_tok(q));
+              }
+              3 => {
+                s.crystal_setup.pm_type = pm2;
+                mdesc = format!("crystal_setup.pm_type:={}", pm2);
+              }
+              4 => {
+                // own beams handed to SPDC::new, polarisations chosen freely
+                let sb = SignalBeam::new(Beam::new(ps, s.signal.phi(), s.signal.theta_internal(), ls * M, 100e-6 * M));
+                let ib = IdlerBeam::new(Beam::new(pi_, s.idler.phi(), s.idler.theta_internal(), li * M, 80e-6 * M));
+                s = SPDC::new(
+                  s.crystal_setup.clone(), sb, ib, s.pump.clone(), s.pump_bandwidth, s.pump_average_power, s.pump_spectrum_threshold,
+                  s.pp.clone(), 1e-3 * M, 2e-3 * M, s.deff,
+                );
+                mdesc = format!("SPDC::new(signal_pol={},idler_pol={})", pol_tok(ps), pol_tok(pi_));
+              }
+              5 => {
+                let b = s.signal.clone().as_beam().with_polarization(flip(s.signal.polarization()));
+                s.signal = b.into();
+                mdesc = "signal:=signal.with_polarization(flipped)".to_string();
+              }
+              6 => {
+                s.signal.set_vacuum_wavelength(lam2 * M);
+                mdesc = format!("signal.set_vacuum_wavelength({:e})", lam2);
+              }
+              7 => {
+                s.idler.set_frequency(vacuum_wavelength_to_frequency(lam2 * M));
+                mdesc = format!("idler.set_frequency(of_lambda={:e})", lam2);
+              }
+              8 => {
+                s.crystal_setup.length = len2 * M;
+                mdesc = format!("crystal_setup.length:={:e}", len2);
+              }
+              9 => {
+                s.crystal_setup.theta = ang2.0 * RAD;
+                s.crystal_setup.phi = ang2.1 * RAD;
+                mdesc = format!("crystal_setup.theta:={:e};crystal_setup.phi:={:e}", ang2.0, ang2.1);
+              }
+              10 => {
+                s.crystal_setup.temperature = from_celsius_to_kelvin(t2);
+                mdesc = format!("crystal_setup.temperature_c:={}", t2);
+              }
+              11 => {
+                if c2_ok {
+                  s.crystal_setup.crystal = c2.clone();
+                }
+                mdesc = format!("crystal_setup.crystal:={}", if c2_ok { c2.to_string() } else { "unchanged".to_string() });
+              }
+              12 => {
+                s = s.with_swapped_signal_idler();
+                mdesc = "with_swapped_signal_idler".to_string();
+              }
+              13 => {
+                s = s.with_swapped_signal_idler();
+                let p = flip(s.signal.polarization());
+                s.signal.set_polarization(p);
+                mdesc = format!("with_swapped_signal_idler;signal.set_polarization({})", pol_tok(p));
+              }
+              14 => {
+                s.crystal_setup.counter_propagation = true;
+                mdesc = "crystal_setup.counter_propagation:=true".to_string();
+              }
+              15 => {
+                s.signal.set_angles(0.7 * RAD, 0.05 * RAD);
+                s.idler.set_theta_internal(-0.04 * RAD);
+                mdesc = "signal.set_angles(0.7,0.05);idler.set_theta_internal(-0.04)".to_string();
+              }
+              16 => {
+                let p = flip(s.pump.polarization());
+                s.pump.set_polarization(p);
+                s.crystal_setup.pm_type = pm2;
+                let q = flip(s.idler.polarization());
+                s.idler.set_polarization(q);
+                mdesc = format!("pump.set_polarization({});crystal_setup.pm_type:={};idler.set_polarization({})", pol_tok(p), pm2, pol_tok(q));
+              }
+              _ => {
+                mdesc = "none".to_string();
+              }
+            }
+            s
+          });
+          let s = match mutated {
+            Some(s) => s,
+            None => {
+              ctx.s("C13.waist_position", false, "waist-position/state/panic", &format!("{} state_change={}", det, m));
+              continue;
+            }
+          };
+          let det_m = format!("{} state_change={}", det, mdesc);
+          let routes: Vec<(&str, Option<SPDC>)> = vec![
+            ("assign", guard(|| {
+              let mut t = s.clone();
+              t.assign_optimal_waist_positions();
+              t
+            })),
+            ("with", guard(|| s.clone().with_optimal_waist_positions())),
+            ("with-then-swap", guard(|| s.clone().with_optimal_waist_positions().with_swapped_signal_idler())),
+            ("swap-then-assign", guard(|| {
+              let mut t = s.clone().with_swapped_signal_idler();
+              t.assign_optimal_waist_positions();
+              t
+            })),
+            ("try_as_optimum", guard(|| s.clone().try_as_optimum().ok()).flatten()),
+            ("optimum-idler-then-with", guard(|| s.clone().with_optimum_idler().ok().map(|t| t.with_optimal_waist_positions())).flatten()),
+          ];
+          for (name, made) in routes {
+            match made {
+              Some(spdc) => {
+                ctx.count(&format!("waist/state/route={}", name));
+                waist_check(ctx, &spdc, name, &det_m);
+              }
+              None => ctx.count(&format!("waist/state/route-unavailable={}", name)),
+            }
+          }
+          ctx.count(&format!("waist/state/change={}", m));
+        }
+      }
+    }
+  }
+
+  // ---------------------------------------------------------------- Snell on high-index expression crystals (n up to ≈ 3.9)
+  // at steep external angles: "for every crystal" includes user-supplied CrystalType::Expr
+  {
+    let n_x = if ctx.thorough { 48 } else { 8 };
+    for i in 0..n_x {
+      // (label without blanks, JSON, wavelength range in metres)
+      let (label, json, lrange): (String, String, (f64, f64)) = match i % 4 {
+        0 => (
+          "Expr{ZnGeP2:no=sqrt(4.47330+5.26576*l^2/(l^2-0.13381)+1.49085*l^2/(l^2-662.55));ne=sqrt(4.63318+5.34215*l^2/(l^2-0.14255)+1.45795*l^2/(l^2-662.55))}".to_string(),
+          r#"{ "no": "sqrt(4.47330+5.26576*l^2/(l^2-0.13381)+1.49085*l^2/(l^2-662.55))", "ne": "sqrt(4.63318+5.34215*l^2/(l^2-0.14255)+1.45795*l^2/(l^2-662.55))" }"#.to_string(),
+          (2.0e-6, 8.0e-6),
+        ),
+        1 | 2 => {
+          // uniaxial, positive or negative, base index 2.8 … 3.85, mild dispersion
+          let a = (ctx.rng.range(2.8, 3.85) * 1e4).round() / 1e4;
+          let d = (ctx.rng.range(0.01, 0.12) * 1e4).round() / 1e4;
+          let (no, ne) = if i % 4 == 1 { (a, a + d) } else { (a + d, a) };
+          (
+            format!("Expr{{no={}+0.02/l^2;ne={}+0.03/l^2}}", no, ne),
+            format!(r#"{{ "no": "{}+0.02/l^2", "ne": "{}+0.03/l^2" }}"#, no, ne),
+            (1.0e-6, 5.0e-6),
+          )
+        }
+        _ => {
+          let a = (ctx.rng.range(2.8, 3.6) * 1e4).round() / 1e4;
+          let d1 = (ctx.rng.range(0.01, 0.1) * 1e4).round() / 1e4;
+          let d2 = (ctx.rng.range(0.01, 0.15) * 1e4).round() / 1e4;
+          (
+            format!("Expr{{nx={}+0.02/l^2;ny={}+0.02/l^2;nz={}+0.03/l^2}}", a, a + d1, a + d1 + d2),
+            format!(r#"{{ "nx": "{}+0.02/l^2", "ny": "{}+0.02/l^2", "nz": "{}+0.03/l^2" }}"#, a, a + d1, a + d1 + d2),
+            (1.0e-6, 5.0e-6),
+          )
+        }
+      };
+      let c = match CrystalType::from_string(&json) {
+        Ok(c) => c,
+        Err(_) => {
+          ctx.s("C13.readback", false, "snell/route-failed", &format!("crystal={} route=CrystalType::from_string", label));
+          continue;
+        }
+      };
+      for o in 0..2 {
+        let (ctheta, cphi) = if o == 0 && i % 8 < 4 { (0.0, 0.0) } else { (gen_crystal_angle(&mut ctx.rng), gen_crystal_angle(&mut ctx.rng)) };
+        let t_c = gen_temp(&mut ctx.rng);
+        let cs = setup(&c, ctheta, cphi, t_c);
+        for pol in both.iter() {
+          for j in 0..5 {
+            let ext_deg = match j {
+              0 => 80.0,
+              1 => ctx.rng.range(68.0, 80.0),
+              2 => ctx.rng.range(50.0, 80.0),
+              3 => ctx.rng.range(0.0, 80.0),
+              _ => *ctx.rng.pick(&[0.0, 70.0, 75.0, 60.0, 13.0]),
+            };
+            let bphi = match ctx.rng.below(3) {
+              0 => 0.0,
+              1 => *ctx.rng.pick(&[FRAC_PI_2, PI, 3.0 * FRAC_PI_2]),
+              _ => ctx.rng.range(0.0, TAU),
+            };
+            let lam = ctx.rng.log_range(lrange.0, lrange.1);
+            if j % 2 == 0 {
+              snell_case(ctx, &label, &cs, ctheta, cphi, t_c, lam, *pol, bphi, ext_deg, None);
+            } else {
+              let prev = (gen_prev_theta(&mut ctx.rng, 14 + j), ctx.rng.range(0.0, TAU), ctx.rng.log_range(lrange.0, lrange.1));
+              snell_case(ctx, &label, &cs, ctheta, cphi, t_c, lam, *pol, bphi, ext_deg, Some(prev));
+            }
+          }
+        }
+      }
+    }
+  }
+
   // ---------------------------------------------------------------- ONE beam and ONE setup, one parameter changed per step
   {
     let steps = if ctx.thorough { 30 } else { 5 };
@@ -842,7 +1135,7 @@ pub fn run(ctx: &mut Ctx) {
           for bphi in [0.0, FRAC_PI_2, PI, 3.0 * FRAC_PI_2, next_down(TAU)] {
             let pol = gen_pol(&mut ctx.rng);
             let ext_deg = *ctx.rng.pick(&[0.0, 80.0, 13.0, 1e-6, 45.0]);
-            snell_case(ctx, c, &cs, *th, *ph, 20.0, lam, pol, bphi, ext_deg, None);
+            snell_case(ctx, &c.to_string(), &cs, *th, *ph, 20.0, lam, pol, bphi, ext_deg, None);
           }
         }
       }
